@@ -288,7 +288,13 @@ func cRecord(r *prng.Rand) CRecord {
 }
 
 // CTypeCount is the number of shared Go types GoValue / GoTarget know.
-const CTypeCount = 18
+const CTypeCount = 19
+
+// CNode is a chain: values of this type nest as deep as the chain is long.
+type CNode struct {
+	V    int    `ion:"v"`
+	Next *CNode `ion:"next"`
+}
 
 // CTemp marshals itself through a pointer-receiver method, so whether the method is used depends on whether the
 // value the encoder meets is addressable (slice element, pointer) or not (map value, struct passed by value).
@@ -410,8 +416,14 @@ func GoValue(typ int, r *prng.Rand) interface{} {
 		return CAnnSlice{Value: []int{r.Intn(9), r.Intn(9)}, Ann: cAnn(r)}
 	case 16:
 		return CAnnArr{Value: [2]int{r.Intn(9), r.Intn(9)}, Ann: cAnn(r)}
-	default:
+	case 17:
 		return CAnnAny{Value: int64(r.Intn(9)), Ann: cAnn(r)}
+	default:
+		var head *CNode
+		for d := r.Range(150, 400); d > 0; d-- {
+			head = &CNode{V: d, Next: head}
+		}
+		return head
 	}
 }
 
@@ -571,8 +583,10 @@ func GoTarget(typ int) interface{} {
 		return new(CAnnSlice)
 	case 16:
 		return new(CAnnArr)
-	default:
+	case 17:
 		return new(CAnnAny)
+	default:
+		return new(CNode)
 	}
 }
 
